@@ -148,7 +148,8 @@ def range_of(ax, r):
     if k == 'clip_high':
         return (lo + r['a'] * w, hi + (1 + r['b']) * w + ax.df)
     if k == 'below':
-        return (lo - (2 + r['b']) * w - 3 * ax.df, lo - (1 + r['a']) * w - 2 * ax.df)
+        # upper end less than a band-width below the band: its channel index is in (-N, 0)
+        return (lo - (1 + r['b']) * w - 3 * ax.df, lo - r['a'] * w - 2 * ax.df)
     if k == 'above':
         return (hi + (1 + r['a']) * w + 2 * ax.df, hi + (2 + r['b']) * w + 3 * ax.df)
     if k == 'reversed':
@@ -489,5 +490,7 @@ def reference(stg, ax, sig, opts, ts_eval=None):
             near |= np.abs(d - e) < eps
         excl = near.any(axis=(2, 3))
     amp = amplitude_bound(ax, sig)
-    tol = amp * (lip * 64 * gen.ulp(ax.fs[-1]) + 1e-9)
+    # custom / array bandpass ramps have slope |a|/span per Hz
+    blip = abs(sig['bp'].get('a', 0.0)) / ax.span if sig['bp']['kind'] in ('custom', 'array') else 0.0
+    tol = amp * ((lip + blip) * 64 * gen.ulp(ax.fs[-1]) + 1e-9)
     return exp, tol, excl
